@@ -227,6 +227,9 @@ func genDecl(t *rapid.T) Decl {
 	case kind <= 3:
 		d.Type = "array"
 		d.ItemType, d.ItemFormat = genScalarType(t)
+		if kindStringFormat(d.ItemType, d.ItemFormat) && rapid.IntRange(0, 3).Draw(t, "keepKindStringItems") != 0 {
+			d.ItemFormat = "" // class of known finding F36: keep it rare so that few cases are excluded as a whole
+		}
 		cfs := []string{"", "csv", "ssv", "tsv", "pipes"}
 		if d.In == "query" || d.In == "formData" {
 			cfs = append(cfs, "multi", "multi")
